@@ -5,7 +5,8 @@ passes on the unmodified library and fails with the patch. Copies confirmed
 ones into /verif/seeded/<id>_<mk>/ with meta.json."""
 import os, sys, json, subprocess, shutil, time
 from concurrent.futures import ThreadPoolExecutor
-SEED = "/tmp/seed_out"
+SEED = os.environ.get("SEED_DIR", "/tmp/seed_out")
+MK_MAP = {"m1": "m3", "m2": "m4"} if os.environ.get("SEED_ROUND2") else {}
 OUT = "/verif/seeded"
 def sh(cmd, cwd=None, timeout=1800):
     p = subprocess.run(cmd, shell=True, cwd=cwd, stdout=subprocess.PIPE, stderr=subprocess.STDOUT, timeout=timeout)
@@ -68,7 +69,7 @@ with ThreadPoolExecutor(max_workers=3) as ex:
     for res in ex.map(one, jobs):
         pid, mk = res["property"], res["mutant"]
         print(pid, mk, "confirmed" if res.get("confirmed") else "NOT-CONFIRMED", {k: res.get(k) for k in ("applies", "builds", "tests_pass", "demo_baseline_rc", "demo_patched_rc")}, flush=True)
-        od = os.path.join(OUT, "%s_%s" % (pid, mk))
+        od = os.path.join(OUT, "%s_%s" % (pid, MK_MAP.get(mk, mk)))
         if res.get("confirmed"):
             os.makedirs(od, exist_ok=True)
             for f in ("patch.diff", "demo.c", "README.md"):
@@ -80,5 +81,5 @@ with ThreadPoolExecutor(max_workers=3) as ex:
                     "demo_patched_output": res["demo_patched_out"], "detected_by": None}
             json.dump(meta, open(os.path.join(od, "meta.json"), "w"), indent=1)
         else:
-            json.dump(res, open("/tmp/seed_out/%s/%s/verify_fail.json" % (pid, mk), "w"), indent=1)
+            json.dump(res, open(os.path.join(SEED, pid, mk, "verify_fail.json"), "w"), indent=1)
 sh("git -C /repo worktree remove --force %s" % base)
